@@ -58,7 +58,7 @@ def build_factory(cfg):
         from syne_tune import Tuner, StoppingCriterion
         from syne_tune.results_callback import StoreResultsCallback
         R = cfg["R"]
-        sched, info = scheds.make(cfg["kind"], mode=cfg["mode"], seed=cfg["seed"], R=R, mra=True)
+        sched, info = scheds.make(cfg["kind"], mode=cfg["mode"], seed=cfg["seed"], R=R, mra=cfg.get("mra", True))
         tunerx.wrap_scheduler(sched, log)
         sign = 1.0 if cfg["mode"] == "min" else -1.0
         two = info["metrics"] is not None
@@ -304,7 +304,7 @@ def configs(tier, seed):
                                 i += 1
                                 if (i + seed) % (16 if tier == "quick" else 3) != 0:
                                     continue
-                                out.append(dict(kind=kind, variant=variant, extra=extra, mode=mode, interval=interval, W=W, R=3,
+                                out.append(dict(kind=kind, variant=variant, extra=extra, mode=mode, interval=interval, W=W, R=3, mra=(i % 3 != 0),
                                                 seed=seed, profile=prof, F=1, stop={"max_num_trials_started": 4},
                                                 wait=(pi % 2 == 0), k=1 if tier == "quick" else 2,
                                                 max_exec=120 if tier == "quick" else 2000))
